@@ -4,6 +4,8 @@ from vlib.core import Stage
 ID = "C01"
 STAGES = [
     Stage("solve", "p01_solve", "plain", {"quick": 96, "thorough": 3000}, timeout_per_case=300),
+    # the same generator under ASan + UBSan (other case indices): the whole setup/solve path incl. the command-line route
+    Stage("solve-asan", "p01_solve", "asan", {"quick": 16, "thorough": 300}, offset=1000000, timeout_per_case=900),
     # the recorded configuration of the open finding F16 (fixed options): reproduces it on every run
     Stage("f16-witness", "p01_solve", "plain", {"quick": 1, "thorough": 1}, args={"witness": "F16"}, offset=9000000, timeout_per_case=300),
 ]
@@ -34,7 +36,7 @@ RULE = ("case = random configuration from the stated set: 3 geometries x {Cartes
         "extrapolation, cycle, FMG cfg, levels, norm); non-trivial = >= 2 iterations and non-zero initial residual")
 ASSUMPTIONS = ["independent stop quantity: reference stencil + own discretised rhs + own every-second-node coarse grid",
                "rounding of a converged residual allows 1% slack on the tolerance (one skipped iteration changes it by >= 30%)"]
-TECHNIQUE = "runtime monitor over the option space: iteration budget / reduction factor observed, and the stop quantity recomputed independently (reference operator, own rhs, own coarse grid, extrapolated combination) from solution() and grid()"
+TECHNIQUE = "runtime monitor over the option space: iteration budget / reduction factor observed, and the stop quantity recomputed independently (reference operator, own rhs, own coarse grid, extrapolated combination) from solution() and grid(); ASan/UBSan replay of the same generator"
 LEVEL_TEXT = ("sampled executions judged by an oracle: ~100 (quick) / 3000 (thorough) configurations through the public API and the CLI "
               "parser; convergence within 150 iterations with factor < 1, and the residual recomputed independently must meet the tolerance "
               "whenever the solver stopped early")
